@@ -808,14 +808,22 @@ def check_case(inp, out):
         if form == 'dur':
             second = timedelta(seconds=inp.get('dur', 5400))
         else:
-            second = make_dt('provider', k2, w2)
+            second = make_dt('provider', k2, w2, inp.get('endfold', 0))
         value = (d, second)
         e = Event()
         try:
             e.add(name, [value] if name != 'FREEBUSY' else value)
             ical = e.to_ical()
-        except ValueError:
-            return 0                 # start after end (a transition in between): not a period
+        except ValueError as x:
+            # start after end: not a period.  Two values carrying the SAME zone object are ordered by their wall
+            # clocks (Python's rule), so under zoneinfo a period whose wall clock runs forward is a period, even
+            # when its start lies in a gap; objects of different zone instances (pytz) are ordered by instant
+            if inp.get('provider') == 'zoneinfo' and fam in ('provider', 'zi') and form == 'end' and k2 == k \
+                    and datetime(*w2) > datetime(*w):
+                viol(out, 'period-rejected', inp, 'a period whose wall clock runs forward (%s to %s in %s) was rejected: %s' % (
+                    text_of(w, k), text_of(w2, k2), k, x))
+                return 1
+            return 0
         params, text = line_of(ical, name)
         if form == 'end' and text != text_of(w, k) + '/' + text_of(w2, k2):
             viol(out, 'line-text', inp, 'period text %r, expected %r' % (text, text_of(w, k) + '/' + text_of(w2, k2)), cls)
@@ -913,6 +921,12 @@ def zone_job(args):
                 wend = fields(datetime(*w) + timedelta(days=2, seconds=rng.randrange(86400)))
                 if wend[0] <= 2100:
                     cases.append(dict(base, route='period:%s:end' % ('RDATE', 'FREEBUSY')[n % 2], end=list(wend)))
+                if tag in ('gap', 'fold'):
+                    # a short period that starts at this special wall time, and one that ends at it
+                    for mins in (20, 40):
+                        cases.append(dict(base, route='period:FREEBUSY:end', end=list(fields(datetime(*w) + timedelta(minutes=mins)))))
+                    wb = fields(datetime(*w) - timedelta(hours=3))
+                    cases.append(dict(base, wall=list(wb), route='period:RDATE:end', end=list(w), endfold=n % 2))
                 cases.append(dict(base, route='utc:add:' + ('DTSTAMP', 'CREATED', 'LAST-MODIFIED', 'ACKNOWLEDGED')[n % 4], fold=n % 2,
                                   micro=(250000 if n % 3 == 0 else 0)))
                 cases.append(dict(base, route='utc:set:' + ('DTSTAMP', 'LAST-MODIFIED', 'ACKNOWLEDGED')[n % 3], fold=(n + 1) % 2))
@@ -982,6 +996,17 @@ def oracle(ctx):
                 {'route': 'utc:add:DTSTAMP', 'zone': B, 'wall': [2020, 10, 25, 2, 30, 0], 'fold': 1},
                 {'route': 'utc:add:CREATED', 'zone': 'Pacific/Apia', 'wall': [2011, 12, 29, 23, 59, 59], 'fold': 0},
                 {'route': 'utc:add:DTSTAMP', 'zone': B, 'wall': [2021, 10, 31, 2, 30, 0], 'fold': 1, 'micro': 250000},
+                # periods at a gap: start inside it with the end just after (shorter than the gap); end inside it (both
+                # readings); start before and end after; and the repeated hour
+                {'route': 'period:FREEBUSY:end', 'zone': B, 'wall': [2021, 3, 28, 2, 30, 0], 'end': [2021, 3, 28, 3, 10, 0]},
+                {'route': 'period:RDATE:end', 'zone': B, 'wall': [2021, 3, 28, 2, 45, 0], 'end': [2021, 3, 28, 3, 15, 0]},
+                {'route': 'period:FREEBUSY:dur', 'zone': B, 'wall': [2021, 3, 28, 2, 45, 0], 'dur': 1800},
+                {'route': 'period:FREEBUSY:end', 'zone': B, 'wall': [2021, 3, 28, 1, 30, 0], 'end': [2021, 3, 28, 2, 30, 0], 'endfold': 0},
+                {'route': 'period:FREEBUSY:end', 'zone': B, 'wall': [2021, 3, 28, 1, 30, 0], 'end': [2021, 3, 28, 2, 30, 0], 'endfold': 1},
+                {'route': 'period:RDATE:end', 'zone': B, 'wall': [2020, 11, 1, 12, 0, 0], 'end': [2021, 3, 28, 2, 30, 0], 'endfold': 0},
+                {'route': 'period:RDATE:end', 'zone': NY, 'wall': [2021, 3, 14, 1, 0, 0], 'end': [2021, 3, 14, 2, 0, 0], 'endfold': 1},
+                {'route': 'period:FREEBUSY:end', 'zone': 'Pacific/Apia', 'wall': [2011, 12, 30, 8, 0, 0], 'end': [2011, 12, 31, 1, 0, 0]},
+                {'route': 'period:FREEBUSY:end', 'zone': B, 'wall': [2021, 10, 31, 2, 10, 0], 'end': [2021, 10, 31, 2, 50, 0], 'endfold': 1},
                 {'route': 'utc:add:LAST-MODIFIED', 'zone': 'Australia/Lord_Howe', 'wall': [2021, 4, 4, 1, 45, 0], 'fold': 1, 'micro': 1},
                 {'route': 'utc:set:DTSTAMP', 'zone': B, 'wall': [2021, 10, 31, 2, 30, 0], 'fold': 1, 'micro': 999999},
             ]
